@@ -1,7 +1,945 @@
-(* C18 — proofs about the executor transition system (all schedules = all lists of choices). *)
+(* C18 — proofs about the executor transition system.
+   Everything here is quantified over ALL schedules (lists of choices, of any length), all
+   numbers of workers, capacities and task outcomes. *)
 From Coq Require Import List Arith Bool Lia Permutation.
 From FV Require Import C18.Model.
 Import ListNotations.
 
-Lemma call_enabled o s : step o s Call <> None.
-Proof. discriminate. Qed.
+(* ------------------------------------------------------------------ generalities *)
+
+Lemma run_app o s a b : run o s (a ++ b) = run o (run o s a) b.
+Proof. revert s; induction a as [|c a IH]; intros s; simpl; [reflexivity | apply IH]. Qed.
+
+Lemma run_inv o (P : st -> Prop) :
+  (forall s c s', P s -> step o s c = Some s' -> P s') ->
+  forall cs s, P s -> P (run o s cs).
+Proof.
+  intros Hstep cs; induction cs as [|c cs IH]; intros s Hs; simpl; [exact Hs|].
+  apply IH. unfold step'. destruct (step o s c) eqn:E; [eapply Hstep; eauto | exact Hs].
+Qed.
+
+Lemma phase_eqb_eq a b : phase_eqb a b = true <-> a = b.
+Proof. destruct a, b; simpl; split; intros H; try reflexivity; try discriminate. Qed.
+Lemma phase_eqb_neq a b : phase_eqb a b = false <-> a <> b.
+Proof. destruct a, b; simpl; split; intros H; try reflexivity; try discriminate; try congruence. Qed.
+
+Lemma mem_In t l : mem t l = true <-> In t l.
+Proof.
+  unfold mem. rewrite existsb_exists. split.
+  - intros [x [Hx E]]. apply Nat.eqb_eq in E. subst. exact Hx.
+  - intros H. exists t. split; [exact H | apply Nat.eqb_refl].
+Qed.
+Lemma mem_nIn t l : mem t l = false <-> ~ In t l.
+Proof. rewrite <- mem_In. destruct (mem t l); split; congruence. Qed.
+
+Lemma upd_same f i x : upd f i x i = x.
+Proof. unfold upd. rewrite Nat.eqb_refl. reflexivity. Qed.
+Lemma upd_other f i x k : k <> i -> upd f i x k = f k.
+Proof. intros H. unfold upd. apply Nat.eqb_neq in H. rewrite H. reflexivity. Qed.
+
+(* worker list *)
+Lemma setw_length j x l : length (setw j x l) = length l.
+Proof. revert j; induction l as [|w l IH]; intros [|j]; simpl; auto. Qed.
+
+Lemma setw_In j x l w : In w (setw j x l) -> w = x \/ In w l.
+Proof.
+  revert j; induction l as [|a l IH]; intros [|j]; simpl; auto.
+  - intros [H|H]; auto.
+  - intros [H|H]; auto. destruct (IH _ H); auto.
+Qed.
+
+Lemma setw_Forall (P : wst -> Prop) j x l : Forall P l -> P x -> Forall P (setw j x l).
+Proof.
+  intros Hl Hx. apply Forall_forall. intros w Hw. apply setw_In in Hw.
+  destruct Hw as [->|Hw]; [exact Hx | eapply Forall_forall; eauto].
+Qed.
+
+Lemma nth_lt j l w : nth j l WExited = w -> w <> WExited -> j < length l.
+Proof.
+  intros H Hw. destruct (Nat.lt_ge_cases j (length l)) as [?|Hge]; [assumption|].
+  rewrite nth_overflow in H by exact Hge. congruence.
+Qed.
+
+Lemma nth_In_w j l w : nth j l WExited = w -> w <> WExited -> In w l.
+Proof. intros H Hw. rewrite <- H. apply nth_In. eapply nth_lt; eauto. Qed.
+
+Lemma busy_setw j x l : j < length l ->
+  Permutation (busy1 (nth j l WExited) ++ busy (setw j x l)) (busy1 x ++ busy l).
+Proof.
+  revert j; induction l as [|w l IH]; intros j Hj; simpl in Hj; [lia|].
+  destruct j as [|j]; simpl.
+  - unfold busy; simpl. fold (busy l). apply Permutation_app_swap_app.
+  - unfold busy; simpl. fold (busy l) (busy (setw j x l)).
+    rewrite Permutation_app_swap_app. rewrite (IH j) by lia.
+    apply Permutation_app_swap_app.
+Qed.
+
+Lemma busy_exited l : Forall (fun w => w = WExited) l -> busy l = [].
+Proof. induction 1 as [|w l Hw _ IH]; [reflexivity|]. subst. unfold busy in *. simpl. exact IH. Qed.
+
+Lemma forallb_exited l : forallb is_exited l = true <-> Forall (fun w => w = WExited) l.
+Proof.
+  rewrite forallb_forall, Forall_forall. split; intros H w Hw; specialize (H w Hw).
+  - destruct w; simpl in H; congruence.
+  - subst; reflexivity.
+Qed.
+
+(* ------------------------------------------------------------------ case analysis of a step *)
+
+Ltac step_cases H :=
+  match type of H with
+  | step ?o ?s ?c = Some ?s' =>
+      destruct c as [|t|j|j|j|j|j|]; cbn [step] in H;
+      [ idtac
+      | destruct (subs s t) eqn:Esub; try discriminate H;
+        [ destruct (ph s) eqn:Eph
+        | destruct (phase_eqb (ph s) PInit) eqn:Eph;
+          [apply phase_eqb_eq in Eph | apply phase_eqb_neq in Eph]
+        | idtac
+        | idtac
+        | destruct (phase_eqb (ph s) PRunning) eqn:Eph;
+          [apply phase_eqb_eq in Eph | apply phase_eqb_neq in Eph]
+        | destruct (closed s) eqn:Ecl
+        | destruct (mem t (bounced s)) eqn:Emb;
+          [ | destruct (mem t (skipn (cap s) (queue s))) eqn:Emq; try discriminate H ] ]
+      | destruct (nth j (ws s) WExited) eqn:Ew; try discriminate H;
+        destruct (queue s) as [|t0 q0] eqn:Eq; try discriminate H
+      | destruct (nth j (ws s) WExited) eqn:Ew; try discriminate H;
+        destruct (dn s) eqn:Edn; try discriminate H
+      | destruct (nth j (ws s) WExited) eqn:Ew; try discriminate H
+      | destruct (nth j (ws s) WExited) eqn:Ew; try discriminate H;
+        destruct (queue s) as [|t0 q0] eqn:Eq; try discriminate H
+      | destruct (nth j (ws s) WExited) eqn:Ew; try discriminate H;
+        destruct (queue s) as [|t0 q0] eqn:Eq; try discriminate H
+      | destruct (sh s) eqn:Esh;
+        [ destruct (phase_eqb (ph s) PRunning) eqn:Eph;
+          [apply phase_eqb_eq in Eph | apply phase_eqb_neq in Eph]
+        | idtac
+        | destruct (forallb is_exited (ws s)) eqn:Eall; try discriminate H
+        | idtac | idtac | idtac ] ];
+      inversion H; subst s'; clear H
+  end.
+
+Lemma step_cases_count o s c s' : step o s c = Some s' -> True.
+Proof. intros H. step_cases H; exact I. Qed.
+
+(* ------------------------------------------------------------------ invariant A: control state *)
+
+Definition starter (x : sst) : bool := match x with SSpawn | SSetRun => true | _ => false end.
+Definition past_check (x : sst) : bool :=
+  match x with SCheck | SPark | SParked | SRet ROk => true | _ => false end.
+Definition post (w : wst) : bool := match w with WDrain | WDBusy _ | WExited => true | _ => false end.
+Definition started_ph (p : phase) : bool :=
+  match p with PRunning | PShutdown | PTerminated => true | _ => false end.
+Definition alive_w (w : wst) : Prop := w = WIdle \/ exists t, w = WBusy t.
+Definition sh_ph_ok (x : shst) (p : phase) : Prop :=
+  match x with
+  | ShIdle => p = PInit \/ p = PStarted \/ p = PRunning
+  | ShDone => p = PTerminated
+  | _ => p = PShutdown
+  end.
+Definition dn_of (x : shst) : bool := match x with ShIdle | ShClose => false | _ => true end.
+Definition closed_of (x : shst) : bool := match x with ShSetTerm | ShDone => true | _ => false end.
+Definition joined (x : shst) : bool := match x with ShCloseQ | ShSetTerm | ShDone => true | _ => false end.
+
+Record InvA (s : st) : Prop := mkA {
+  a_none : forall t, next s <= t -> subs s t = SNone;
+  a_starter_ph : forall t, starter (subs s t) = true -> ph s = PStarted;
+  a_starter_uniq : forall t t', starter (subs s t) = true -> starter (subs s t') = true -> t = t';
+  a_sh_ph : sh_ph_ok (sh s) (ph s);
+  a_dn_sh : dn s = dn_of (sh s);
+  a_ws_started : started_ph (ph s) = true -> length (ws s) = nw s;
+  a_ws_init : ph s = PInit -> ws s = [];
+  a_spawn : forall t, subs s t = SSpawn -> ws s = [];
+  a_setrun : forall t, subs s t = SSetRun -> length (ws s) = nw s;
+  a_nw : 1 <= nw s;
+  a_closed_sh : closed s = closed_of (sh s);
+  a_exited : joined (sh s) = true -> Forall (fun w => w = WExited) (ws s);
+  a_past : forall t, past_check (subs s t) = true -> started_ph (ph s) = true;
+  a_bounced : closed s = false -> bounced s = [];
+  a_alive : dn s = false -> Forall alive_w (ws s);
+  a_post : forall w, In w (ws s) -> post w = true -> dn s = true
+}.
+
+Lemma InvA_init n c : InvA (init n c).
+Proof.
+  constructor; cbn [init ph nw cap queue closed dn ws subs sh next bounced]; intros;
+  try reflexivity; try discriminate; try contradiction; auto; try apply Nat.le_max_l.
+  simpl; auto.
+Qed.
+
+(* a call that is under way has an id below [next] *)
+Lemma live_lt s t : InvA s -> subs s t <> SNone -> t < next s.
+Proof.
+  intros I H. destruct (Nat.lt_ge_cases t (next s)) as [?|Hge]; [assumption|].
+  exfalso. apply H. apply (a_none _ I). exact Hge.
+Qed.
+
+Ltac upd_split k t :=
+  unfold upd; let E := fresh "E" in
+  destruct (Nat.eqb k t) eqn:E; [apply Nat.eqb_eq in E; try subst k | apply Nat.eqb_neq in E].
+
+Lemma stepA_none o s c s' : InvA s -> step o s c = Some s' ->
+  forall k, next s' <= k -> subs s' k = SNone.
+Proof.
+  intros I H. step_cases H; simpl; intros k Hk;
+  try (apply (a_none _ I); lia);
+  try (upd_split k t;
+       [ exfalso; assert (t < next s) by (apply (live_lt _ _ I); congruence); lia
+       | apply (a_none _ I); assumption ]).
+  upd_split k (next s); [lia | apply (a_none _ I); lia].
+Qed.
+
+Lemma sh_ph_started s : InvA s -> ph s = PStarted -> sh s = ShIdle.
+Proof. intros I E. pose proof (a_sh_ph _ I) as H. rewrite E in H. destruct (sh s); simpl in H; try discriminate; auto. Qed.
+
+Lemma sh_ph_running s : InvA s -> ph s = PRunning -> sh s = ShIdle.
+Proof. intros I E. pose proof (a_sh_ph _ I) as H. rewrite E in H. destruct (sh s); simpl in H; try discriminate; auto. Qed.
+
+Lemma sh_ph_init s : InvA s -> ph s = PInit -> sh s = ShIdle.
+Proof. intros I E. pose proof (a_sh_ph _ I) as H. rewrite E in H. destruct (sh s); simpl in H; try discriminate; auto. Qed.
+
+Lemma stepA_starter_ph o s c s' : InvA s -> step o s c = Some s' ->
+  forall k, starter (subs s' k) = true -> ph s' = PStarted.
+Proof.
+  intros I H. step_cases H; simpl; intros k Hk; try reflexivity;
+  try (apply (a_starter_ph _ I k); assumption);
+  try (revert Hk; upd_split k t; simpl; intros Hk; try discriminate Hk;
+       try (apply (a_starter_ph _ I k); assumption);
+       try (apply (a_starter_ph _ I t); rewrite Esub; reflexivity)).
+  - revert Hk; upd_split k (next s); simpl; intros Hk; try discriminate Hk.
+    apply (a_starter_ph _ I k); assumption.
+  - exfalso. apply E. apply (a_starter_uniq _ I); [assumption | rewrite Esub; reflexivity].
+  - pose proof (a_starter_ph _ I k Hk). congruence.
+  - pose proof (a_starter_ph _ I k Hk). pose proof (a_sh_ph _ I) as P. rewrite Esh in P. simpl in P. congruence.
+Qed.
+
+Lemma stepA_starter_uniq o s c s' : InvA s -> step o s c = Some s' ->
+  forall k k', starter (subs s' k) = true -> starter (subs s' k') = true -> k = k'.
+Proof.
+  intros I H.
+  assert (U := a_starter_uniq _ I). assert (P := a_starter_ph _ I).
+  step_cases H; simpl; intros k k' Hk Hk'; try (apply U; assumption);
+  try (revert Hk Hk'; upd_split k t; upd_split k' t; simpl; intros Hk Hk';
+       try discriminate Hk; try discriminate Hk'; try reflexivity; try congruence;
+       try (apply U; assumption)).
+  - revert Hk Hk'; upd_split k (next s); upd_split k' (next s); simpl; intros Hk Hk';
+    try discriminate; try congruence. apply U; assumption.
+  - pose proof (P k' Hk'). congruence.
+  - pose proof (P k Hk). congruence.
+  - exfalso. match goal with Hne : _ <> t |- _ => apply Hne end.
+    apply U; [assumption | rewrite Esub; reflexivity].
+  - exfalso. match goal with Hne : _ <> t |- _ => apply Hne end.
+    apply U; [assumption | rewrite Esub; reflexivity].
+Qed.
+
+Lemma stepA_sh_ph o s c s' : InvA s -> step o s c = Some s' -> sh_ph_ok (sh s') (ph s').
+Proof.
+  intros I H. assert (P := a_sh_ph _ I).
+  step_cases H; simpl; try exact P; try (rewrite Esh in P; exact P); try (rewrite Eph; exact P);
+  try (rewrite Esh; exact P); auto.
+  - rewrite (sh_ph_init _ I Eph). simpl. auto.
+  - assert (ph s = PStarted) by (apply (a_starter_ph _ I t); rewrite Esub; reflexivity).
+    rewrite (sh_ph_started _ I H). simpl. auto.
+Qed.
+
+Lemma stepA_dn_sh o s c s' : InvA s -> step o s c = Some s' -> dn s' = dn_of (sh s').
+Proof.
+  intros I H. assert (P := a_dn_sh _ I).
+  step_cases H; simpl; try exact P; try (rewrite Esh in P; exact P); try (rewrite Esh; exact P); auto;
+  try (simpl in P; congruence).
+Qed.
+
+Lemma stepA_closed_sh o s c s' : InvA s -> step o s c = Some s' -> closed s' = closed_of (sh s').
+Proof.
+  intros I H. assert (P := a_closed_sh _ I).
+  step_cases H; simpl; try exact P; try (rewrite Esh in P; exact P); try (rewrite Esh; exact P); auto;
+  try (simpl in P; congruence).
+Qed.
+
+Lemma stepA_nw o s c s' : InvA s -> step o s c = Some s' -> 1 <= nw s'.
+Proof. intros I H. assert (P := a_nw _ I). step_cases H; simpl; exact P. Qed.
+
+Lemma stepA_ws_started o s c s' : InvA s -> step o s c = Some s' ->
+  started_ph (ph s') = true -> length (ws s') = nw s'.
+Proof.
+  intros I H.
+  step_cases H; pose proof (a_ws_started _ I) as P; pose proof (a_sh_ph _ I) as Q;
+  simpl; intros Hp; rewrite ?setw_length, ?repeat_length; try reflexivity;
+  try (apply P; assumption); try discriminate Hp;
+  try (apply P; rewrite Eph; reflexivity).
+  - apply (a_setrun _ I t Esub).
+  - rewrite Esh in Q. simpl in Q. apply P. rewrite Q. reflexivity.
+Qed.
+
+Lemma stepA_ws_init o s c s' : InvA s -> step o s c = Some s' -> ph s' = PInit -> ws s' = [].
+Proof.
+  intros I H.
+  step_cases H; pose proof (a_ws_init _ I) as P; pose proof (a_sh_ph _ I) as Q;
+  simpl; intros Hp; try (apply P; assumption); try discriminate Hp;
+  try (exfalso; assert (Hl : j < length (ws s)) by (eapply nth_lt; [eassumption | discriminate]);
+       rewrite (P Hp) in Hl; simpl in Hl; lia).
+  - exfalso. assert (ph s = PStarted) by (apply (a_starter_ph _ I t); rewrite Esub; reflexivity). congruence.
+Qed.
+
+Ltac no_worker s j :=
+  exfalso; assert (Hl : j < length (ws s)) by (eapply nth_lt; [eassumption | discriminate]);
+  match goal with Hz : ws s = [] |- _ => rewrite Hz in Hl; simpl in Hl; lia end.
+
+Lemma stepA_spawn o s c s' : InvA s -> step o s c = Some s' ->
+  forall k, subs s' k = SSpawn -> ws s' = [].
+Proof.
+  intros I H.
+  step_cases H; pose proof (a_spawn _ I) as P; simpl; intros k Hk;
+  try (apply (P k); assumption);
+  try (pose proof (P k Hk) as Hz; no_worker s j);
+  try (revert Hk; upd_split k t; intros Hk; try discriminate Hk; try (apply (P k); assumption)).
+  - revert Hk; upd_split k (next s); intros Hk; try discriminate Hk. apply (P k); assumption.
+  - apply (a_ws_init _ I Eph).
+  - exfalso. match goal with Hne : _ <> t |- _ => apply Hne end.
+    apply (a_starter_uniq _ I); [rewrite Hk | rewrite Esub]; reflexivity.
+Qed.
+
+Lemma stepA_setrun o s c s' : InvA s -> step o s c = Some s' ->
+  forall k, subs s' k = SSetRun -> length (ws s') = nw s'.
+Proof.
+  intros I H.
+  step_cases H; pose proof (a_setrun _ I) as P; simpl; intros k Hk;
+  rewrite ?setw_length, ?repeat_length; try reflexivity;
+  try (apply (P k); assumption);
+  try (revert Hk; upd_split k t; intros Hk; try discriminate Hk; try (apply (P k); assumption)).
+  - revert Hk; upd_split k (next s); intros Hk; try discriminate Hk. apply (P k); assumption.
+Qed.
+
+Lemma stepA_exited o s c s' : InvA s -> step o s c = Some s' ->
+  joined (sh s') = true -> Forall (fun w => w = WExited) (ws s').
+Proof.
+  intros I H.
+  step_cases H; pose proof (a_exited _ I) as P; simpl; intros Hj;
+  try (apply P; assumption); try discriminate Hj;
+  try (exfalso; specialize (P Hj); rewrite Forall_forall in P;
+       assert (Hin : In (nth j (ws s) WExited) (ws s))
+         by (eapply nth_In_w; [reflexivity | rewrite Ew; discriminate]);
+       specialize (P _ Hin); rewrite Ew in P; discriminate P).
+  - exfalso. assert (E : ph s = PStarted) by (apply (a_starter_ph _ I t); rewrite Esub; reflexivity).
+    rewrite (sh_ph_started _ I E) in Hj. discriminate Hj.
+  - apply forallb_exited. exact Eall.
+  - apply P. rewrite Esh. reflexivity.
+  - apply P. rewrite Esh. reflexivity.
+Qed.
+
+Lemma old_worker_dn s j w : InvA s -> nth j (ws s) WExited = w -> w <> WExited -> post w = true -> dn s = true.
+Proof. intros I E Hw Hp. apply (a_post _ I w); [eapply nth_In_w; eauto | exact Hp]. Qed.
+
+Lemma stepA_alive o s c s' : InvA s -> step o s c = Some s' ->
+  dn s' = false -> Forall alive_w (ws s').
+Proof.
+  intros I H.
+  step_cases H; pose proof (a_alive _ I) as P; simpl; intros Hd;
+  try (apply P; assumption); try discriminate Hd;
+  try (apply setw_Forall; [apply P; assumption | unfold alive_w; eauto]);
+  try (exfalso; assert (dn s = true) by (eapply old_worker_dn; eauto; discriminate); congruence).
+  - apply Forall_forall. intros w Hw. apply repeat_spec in Hw. subst. left. reflexivity.
+Qed.
+
+Lemma stepA_post o s c s' : InvA s -> step o s c = Some s' ->
+  forall w, In w (ws s') -> post w = true -> dn s' = true.
+Proof.
+  intros I H.
+  step_cases H; pose proof (a_post _ I) as P; simpl; intros w Hw Hp;
+  try (eapply P; eassumption); try reflexivity;
+  try (apply setw_In in Hw; destruct Hw as [->|Hw]; [try discriminate Hp | eapply P; eassumption]);
+  try (eapply old_worker_dn; eauto; discriminate).
+  - apply repeat_spec in Hw. subst. discriminate Hp.
+  - exact Edn.
+Qed.
+
+Lemma stepA_past o s c s' : InvA s -> step o s c = Some s' ->
+  forall k, past_check (subs s' k) = true -> started_ph (ph s') = true.
+Proof.
+  intros I H.
+  step_cases H; pose proof (a_past _ I) as P; simpl; intros k Hk; try reflexivity;
+  try (apply (P k); assumption);
+  try (revert Hk; upd_split k t; simpl; intros Hk; try discriminate Hk;
+       try (apply (P k); assumption);
+       try (apply (P t); rewrite Esub; reflexivity);
+       try (rewrite Eph; reflexivity)).
+  - revert Hk; upd_split k (next s); simpl; intros Hk; try discriminate Hk. apply (P k); assumption.
+  - pose proof (P k Hk) as Q. rewrite Eph in Q. discriminate Q.
+Qed.
+
+Lemma stepA_bounced o s c s' : InvA s -> step o s c = Some s' -> closed s' = false -> bounced s' = [].
+Proof.
+  intros I H.
+  step_cases H; pose proof (a_bounced _ I) as P; simpl; intros Hc;
+  try (apply P; assumption); try discriminate Hc.
+Qed.
+
+Lemma step_InvA o s c s' : InvA s -> step o s c = Some s' -> InvA s'.
+Proof.
+  intros I H. constructor.
+  - eapply stepA_none; eauto.
+  - eapply stepA_starter_ph; eauto.
+  - eapply stepA_starter_uniq; eauto.
+  - eapply stepA_sh_ph; eauto.
+  - eapply stepA_dn_sh; eauto.
+  - eapply stepA_ws_started; eauto.
+  - eapply stepA_ws_init; eauto.
+  - eapply stepA_spawn; eauto.
+  - eapply stepA_setrun; eauto.
+  - eapply stepA_nw; eauto.
+  - eapply stepA_closed_sh; eauto.
+  - eapply stepA_exited; eauto.
+  - eapply stepA_past; eauto.
+  - eapply stepA_bounced; eauto.
+  - eapply stepA_alive; eauto.
+  - eapply stepA_post; eauto.
+Qed.
+
+Theorem reach_InvA o n c cs : InvA (run o (init n c) cs).
+Proof. apply run_inv; [intros; eapply step_InvA; eauto | apply InvA_init]. Qed.
+
+(* ------------------------------------------------------------------ invariant B: accounting *)
+
+Record InvB (s : st) : Prop := mkB {
+  b_perm : Permutation (entered s) (ran s ++ busy (ws s) ++ queue s ++ bounced s);
+  b_nodup : NoDup (entered s);
+  b_entered_pc : forall t, In t (entered s) -> subs s t = SParked \/ exists r, subs s t = SRet r;
+  b_early_entered : forall t, In t (early s) -> In t (entered s);
+  b_late_q : In WExited (ws s) -> forall t, In t (queue s) -> ~ In t (early s);
+  b_late_b : forall t, In t (bounced s) -> ~ In t (early s);
+  b_all_early : sh s = ShIdle -> forall t, In t (entered s) -> In t (early s);
+  b_ret_entered : forall t, subs s t = SParked \/ subs s t = SRet ROk -> In t (entered s)
+}.
+
+Lemma InvB_init n c : InvB (init n c).
+Proof.
+  constructor; simpl; intros; try contradiction; auto; try constructor.
+  destruct H; discriminate.
+Qed.
+
+Lemma busy_repeat n : busy (repeat WIdle n) = [].
+Proof. induction n; [reflexivity | unfold busy in *; simpl; exact IHn]. Qed.
+
+Lemma busy_take j x l : nth j l WExited <> WExited -> busy1 (nth j l WExited) = [] ->
+  Permutation (busy (setw j x l)) (busy1 x ++ busy l).
+Proof.
+  intros Hw Hb. pose proof (busy_setw j x l) as P. rewrite Hb in P. simpl in P.
+  apply P. eapply nth_lt; [reflexivity | exact Hw].
+Qed.
+
+Lemma busy_finish j x l t : nth j l WExited <> WExited -> busy1 (nth j l WExited) = [t] -> busy1 x = [] ->
+  Permutation (t :: busy (setw j x l)) (busy l).
+Proof.
+  intros Hw Hb Hx. pose proof (busy_setw j x l) as P. rewrite Hb, Hx in P. simpl in P.
+  apply P. eapply nth_lt; [reflexivity | exact Hw].
+Qed.
+
+Lemma In_firstn {A} n (l : list A) x : In x (firstn n l) -> In x l.
+Proof. revert n; induction l as [|a l IH]; intros [|n]; simpl; try tauto. intros [H|H]; auto. right. eapply IH; eauto. Qed.
+Lemma In_skipn {A} n (l : list A) x : In x (skipn n l) -> In x l.
+Proof. revert n; induction l as [|a l IH]; intros [|n]; simpl; try tauto. intros H. right. eapply IH; eauto. Qed.
+
+Lemma not_entered s t : InvB s -> (forall r, subs s t <> SRet r) -> subs s t <> SParked -> ~ In t (entered s).
+Proof.
+  intros B H1 H2 Hin. destruct (b_entered_pc _ B t Hin) as [E|[r E]]; [exact (H2 E) | exact (H1 r E)].
+Qed.
+
+Lemma stepB_perm o s c s' : InvA s -> InvB s -> step o s c = Some s' ->
+  Permutation (entered s') (ran s' ++ busy (ws s') ++ queue s' ++ bounced s').
+Proof.
+  intros I B H.
+  step_cases H; pose proof (b_perm _ B) as P; simpl; try exact P.
+  - (* spawn *) rewrite busy_repeat. rewrite (a_spawn _ I t Esub) in P. exact P.
+  - (* park *) rewrite P. rewrite <- !app_assoc. rewrite !app_assoc. rewrite <- app_assoc.
+    repeat rewrite <- app_assoc.
+    apply Permutation_app_head. apply Permutation_app_head. apply Permutation_app_head.
+    apply Permutation_app_comm.
+  - (* take *) rewrite busy_take by (rewrite Ew; first [discriminate | reflexivity]).
+    rewrite Eq in P. rewrite P. apply Permutation_app_head. simpl.
+    symmetry. apply Permutation_middle.
+  - (* see done *) rewrite busy_take by (rewrite Ew; first [discriminate | reflexivity]). exact P.
+  - (* finish *) rewrite <- app_assoc. simpl.
+    rewrite P. apply Permutation_app_head.
+    rewrite <- (busy_finish j WIdle (ws s) t) by first [rewrite Ew; first [discriminate | reflexivity] | reflexivity].
+    reflexivity.
+  - rewrite <- app_assoc. simpl.
+    rewrite P. apply Permutation_app_head.
+    rewrite <- (busy_finish j WDrain (ws s) t) by first [rewrite Ew; first [discriminate | reflexivity] | reflexivity].
+    reflexivity.
+  - (* drain take *) rewrite busy_take by (rewrite Ew; first [discriminate | reflexivity]).
+    rewrite Eq in P. rewrite P. apply Permutation_app_head. simpl.
+    symmetry. apply Permutation_middle.
+  - (* drain empty *) rewrite busy_take by (rewrite Ew; first [discriminate | reflexivity]). exact P.
+  - (* close *) rewrite P. apply Permutation_app_head. apply Permutation_app_head.
+    rewrite <- (firstn_skipn (cap s) (queue s)) at 1. rewrite <- app_assoc.
+    apply Permutation_app_head. apply Permutation_app_comm.
+Qed.
+
+Lemma spark_not_entered s t : InvB s -> subs s t = SPark -> ~ In t (entered s).
+Proof. intros B E. apply not_entered; [exact B | intros r; rewrite E; discriminate | rewrite E; discriminate]. Qed.
+
+Lemma stepB_nodup o s c s' : InvA s -> InvB s -> step o s c = Some s' -> NoDup (entered s').
+Proof.
+  intros I B H.
+  step_cases H; pose proof (b_nodup _ B) as P; simpl; try exact P.
+  apply (Permutation_NoDup (l := t :: entered s)); [apply Permutation_cons_append|].
+  constructor; [apply spark_not_entered; assumption | exact P].
+Qed.
+
+Lemma stepB_entered_pc o s c s' : InvA s -> InvB s -> step o s c = Some s' ->
+  forall k, In k (entered s') -> subs s' k = SParked \/ exists r, subs s' k = SRet r.
+Proof.
+  intros I B H.
+  step_cases H; pose proof (b_entered_pc _ B) as P; simpl; intros k Hk;
+  try (apply P; assumption);
+  try (upd_split k t; [ | apply P; assumption];
+       first [ right; eexists; reflexivity
+             | left; reflexivity
+             | exfalso; destruct (P t Hk) as [E1|[r E1]]; rewrite Esub in E1; discriminate E1 ]).
+  - upd_split k (next s); [ | apply P; assumption].
+    exfalso. destruct (P _ Hk) as [E1|[r E1]]; rewrite (a_none _ I) in E1 by lia; discriminate E1.
+  - (* park *) upd_split k t; [left; reflexivity|].
+    apply in_app_or in Hk. destruct Hk as [Hk|[Hk|[]]]; [apply P; assumption | congruence].
+Qed.
+
+Lemma stepB_early_entered o s c s' : InvA s -> InvB s -> step o s c = Some s' ->
+  forall k, In k (early s') -> In k (entered s').
+Proof.
+  intros I B H.
+  step_cases H; pose proof (b_early_entered _ B) as P; simpl; intros k Hk; try (apply P; assumption).
+  apply in_or_app. destruct (phase_eqb (ph s) PRunning).
+  - destruct Hk as [->|Hk]; [right; left; reflexivity | left; apply P; assumption].
+  - left; apply P; assumption.
+Qed.
+
+Lemma exited_not_running s : InvA s -> In WExited (ws s) -> ph s <> PRunning.
+Proof.
+  intros I Hin E. assert (D : dn s = true) by (apply (a_post _ I WExited Hin); reflexivity).
+  rewrite (a_dn_sh _ I), (sh_ph_running _ I E) in D. discriminate D.
+Qed.
+
+Lemma stepB_late_q o s c s' : InvA s -> InvB s -> step o s c = Some s' ->
+  In WExited (ws s') -> forall k, In k (queue s') -> ~ In k (early s').
+Proof.
+  intros I B H.
+  step_cases H; pose proof (b_late_q _ B) as P; simpl; intros Hex k Hk;
+  try (apply P; assumption);
+  try (apply setw_In in Hex; destruct Hex as [Hex|Hex]; [discriminate Hex|]);
+  try (apply P; [assumption | rewrite Eq; right; assumption]);
+  try (apply P; assumption); try contradiction; try (rewrite Eq in Hk; contradiction).
+  - apply repeat_spec in Hex. discriminate Hex.
+  - (* park *) pose proof (exited_not_running _ I Hex) as Hn. apply phase_eqb_neq in Hn. rewrite Hn.
+    apply in_app_or in Hk. destruct Hk as [Hk|[<-|[]]]; [apply P; assumption|].
+    intros He. apply (spark_not_entered _ _ B Esub). apply (b_early_entered _ B). exact He.
+  - (* close *) apply P; [assumption | eapply In_firstn; eauto].
+Qed.
+
+Lemma joined_has_exited s : InvA s -> joined (sh s) = true -> In WExited (ws s).
+Proof.
+  intros I J. pose proof (a_exited _ I J) as F.
+  assert (L : length (ws s) = nw s).
+  { apply (a_ws_started _ I). pose proof (a_sh_ph _ I) as Q.
+    destruct (sh s); simpl in J; try discriminate J; simpl in Q; rewrite Q; reflexivity. }
+  pose proof (a_nw _ I) as N. destruct (ws s) as [|w l]; [simpl in L; lia|].
+  inversion F; subst. left; reflexivity.
+Qed.
+
+Lemma stepB_late_b o s c s' : InvA s -> InvB s -> step o s c = Some s' ->
+  forall k, In k (bounced s') -> ~ In k (early s').
+Proof.
+  intros I B H.
+  step_cases H; pose proof (b_late_b _ B) as P; simpl; intros k Hk; try (apply P; assumption).
+  - (* park: nothing was bounced yet *)
+    rewrite (a_bounced _ I Ecl) in Hk. contradiction.
+  - (* close *) apply in_app_or in Hk. destruct Hk as [Hk|Hk]; [apply P; assumption|].
+    apply (b_late_q _ B); [apply joined_has_exited; [assumption | rewrite Esh; reflexivity] | eapply In_skipn; eauto].
+Qed.
+
+Lemma stepB_all_early o s c s' : InvA s -> InvB s -> step o s c = Some s' ->
+  sh s' = ShIdle -> forall k, In k (entered s') -> In k (early s').
+Proof.
+  intros I B H.
+  step_cases H; pose proof (b_all_early _ B) as P; simpl; intros Hs k Hk;
+  try (apply P; assumption); try discriminate Hs.
+  - (* park *)
+    assert (R : ph s = PRunning).
+    { pose proof (a_past _ I t) as Q. rewrite Esub in Q. specialize (Q eq_refl).
+      pose proof (a_sh_ph _ I) as S. rewrite Hs in S. simpl in S.
+      destruct S as [S|[S|S]]; rewrite S in Q; try discriminate Q; exact S. }
+    rewrite R. simpl. apply in_app_or in Hk.
+    destruct Hk as [Hk|[<-|[]]]; [right; apply P; assumption | left; reflexivity].
+Qed.
+
+Lemma stepB_ret_entered o s c s' : InvA s -> InvB s -> step o s c = Some s' ->
+  forall k, subs s' k = SParked \/ subs s' k = SRet ROk -> In k (entered s').
+Proof.
+  intros I B H.
+  step_cases H; pose proof (b_ret_entered _ B) as P; simpl; intros k Hk;
+  try (apply P; assumption);
+  try (revert Hk; upd_split k t; intros Hk;
+       [ destruct Hk as [Hk|Hk]; try discriminate Hk | apply P; assumption ]).
+  - revert Hk; upd_split k (next s); intros Hk; [destruct Hk as [Hk|Hk]; discriminate Hk | apply P; assumption].
+  - (* park *) revert Hk; upd_split k t; intros Hk; apply in_or_app;
+    [right; left; reflexivity | left; apply P; assumption].
+  - apply P. left. exact Esub.
+Qed.
+
+Lemma step_InvB o s c s' : InvA s -> InvB s -> step o s c = Some s' -> InvB s'.
+Proof.
+  intros I B H. constructor.
+  - eapply stepB_perm; eauto.
+  - eapply stepB_nodup; eauto.
+  - eapply stepB_entered_pc; eauto.
+  - eapply stepB_early_entered; eauto.
+  - eapply stepB_late_q; eauto.
+  - eapply stepB_late_b; eauto.
+  - eapply stepB_all_early; eauto.
+  - eapply stepB_ret_entered; eauto.
+Qed.
+
+Theorem reach_Inv o n c cs : InvA (run o (init n c) cs) /\ InvB (run o (init n c) cs).
+Proof.
+  apply (run_inv o (fun s => InvA s /\ InvB s)).
+  - intros s ch s' [I B] H. split; [eapply step_InvA | eapply step_InvB]; eauto.
+  - split; [apply InvA_init | apply InvB_init].
+Qed.
+
+(* ------------------------------------------------------------------ exactly once *)
+
+Lemma early_mono o s c s' x : step o s c = Some s' -> In x (early s) -> In x (early s').
+Proof.
+  intros H Hin. step_cases H; simpl; try exact Hin.
+  destruct (phase_eqb (ph s) PRunning); [right|]; exact Hin.
+Qed.
+
+Lemma early_mono_run o cs : forall s t, In t (early s) -> In t (early (run o s cs)).
+Proof.
+  induction cs as [|c cs IH]; intros s t Hin; simpl; [exact Hin|].
+  apply IH. unfold step'. destruct (step o s c) eqn:E; [eapply early_mono; eauto | exact Hin].
+Qed.
+
+Lemma ret_ok_early s t : InvB s -> sh s = ShIdle -> subs s t = SRet ROk -> In t (early s).
+Proof. intros B Hs Hr. apply (b_all_early _ B Hs). apply (b_ret_entered _ B). right. exact Hr. Qed.
+
+Lemma NoDup_app_l {A} (a b : list A) : NoDup (a ++ b) -> NoDup a.
+Proof.
+  induction a as [|x a IH]; simpl; intros H; [constructor|].
+  inversion H; subst. constructor; [|apply IH; assumption].
+  intros Hin. apply H2. apply in_or_app. left. exact Hin.
+Qed.
+
+Lemma ran_nodup s : InvB s -> NoDup (ran s).
+Proof.
+  intros B. pose proof (Permutation_NoDup (b_perm _ B) (b_nodup _ B)) as N.
+  apply NoDup_app_l in N. exact N.
+Qed.
+
+Lemma ran_entered s t : InvB s -> In t (ran s) -> In t (entered s).
+Proof.
+  intros B Hin. apply (Permutation_in t (Permutation_sym (b_perm _ B))). apply in_or_app. left. exact Hin.
+Qed.
+
+Lemma joined_early_ran s t : InvA s -> InvB s -> joined (sh s) = true -> In t (early s) -> In t (ran s).
+Proof.
+  intros I B J He.
+  pose proof (Permutation_in t (b_perm _ B) (b_early_entered _ B t He)) as Hin.
+  rewrite (busy_exited _ (a_exited _ I J)) in Hin. simpl in Hin.
+  apply in_app_or in Hin. destruct Hin as [Hin|Hin]; [exact Hin|].
+  apply in_app_or in Hin. destruct Hin as [Hin|Hin]; exfalso.
+  - exact (b_late_q _ B (joined_has_exited _ I J) t Hin He).
+  - exact (b_late_b _ B t Hin He).
+Qed.
+
+Lemma run_once_state s t : InvA s -> InvB s -> joined (sh s) = true -> In t (early s) ->
+  count_occ Nat.eq_dec (ran s) t = 1.
+Proof.
+  intros I B J He. pose proof (joined_early_ran _ _ I B J He) as Hin.
+  pose proof (ran_nodup _ B) as N. rewrite (NoDup_count_occ Nat.eq_dec) in N.
+  specialize (N t). apply (count_occ_In Nat.eq_dec) in Hin. lia.
+Qed.
+
+Theorem run_once o n c cs1 cs2 t :
+  let s1 := run o (init n c) cs1 in
+  let s2 := run o s1 cs2 in
+  sh s1 = ShIdle -> subs s1 t = SRet ROk -> joined (sh s2) = true ->
+  count_occ Nat.eq_dec (ran s2) t = 1.
+Proof.
+  intros s1 s2 Hs Hr J.
+  destruct (reach_Inv o n c cs1) as [I1 B1].
+  assert (E : s2 = run o (init n c) (cs1 ++ cs2)) by (unfold s2, s1; rewrite run_app; reflexivity).
+  destruct (reach_Inv o n c (cs1 ++ cs2)) as [I2 B2]. rewrite <- E in I2, B2.
+  apply run_once_state; try assumption.
+  unfold s2. apply early_mono_run. apply ret_ok_early; assumption.
+Qed.
+
+Theorem at_most_once o n c cs t :
+  count_occ Nat.eq_dec (ran (run o (init n c) cs)) t <= 1.
+Proof.
+  destruct (reach_Inv o n c cs) as [I B]. pose proof (ran_nodup _ B) as N.
+  rewrite (NoDup_count_occ Nat.eq_dec) in N. apply N.
+Qed.
+
+Theorem only_submitted o n c cs t :
+  let s := run o (init n c) cs in In t (ran s) -> In t (entered s) /\ t < next s.
+Proof.
+  intros s Hin. destruct (reach_Inv o n c cs) as [I B]. fold s in I, B.
+  pose proof (ran_entered _ _ B Hin) as He. split; [exact He|].
+  apply (live_lt _ _ I). destruct (b_entered_pc _ B t He) as [E|[r E]]; rewrite E; discriminate.
+Qed.
+
+(* ------------------------------------------------------------------ quiescence after Shutdown *)
+
+Lemma done_step o s c s' : InvA s -> sh s = ShDone -> step o s c = Some s' ->
+  sh s' = ShDone /\ ran s' = ran s.
+Proof.
+  intros I D H.
+  assert (F : Forall (fun w => w = WExited) (ws s)) by (apply (a_exited _ I); rewrite D; reflexivity).
+  rewrite Forall_forall in F.
+  step_cases H; simpl; try (split; [exact D | reflexivity]); try congruence;
+  try (exfalso; assert (Hin : In (nth j (ws s) WExited) (ws s))
+         by (eapply nth_In_w; [reflexivity | rewrite Ew; discriminate]);
+       specialize (F _ Hin); rewrite Ew in F; discriminate F).
+  split; [exact Esh | reflexivity].
+Qed.
+
+Theorem quiescent o n c cs cs' :
+  let s := run o (init n c) cs in
+  sh s = ShDone ->
+  Forall (fun w => w = WExited) (ws s) /\ length (ws s) = nw s /\ 1 <= nw s /\
+  busy (ws s) = [] /\
+  sh (run o s cs') = ShDone /\ ran (run o s cs') = ran s /\ busy (ws (run o s cs')) = [].
+Proof.
+  intros s D. destruct (reach_Inv o n c cs) as [I _]. fold s in I.
+  assert (F : Forall (fun w => w = WExited) (ws s)) by (apply (a_exited _ I); rewrite D; reflexivity).
+  split; [exact F|]. split.
+  { apply (a_ws_started _ I). pose proof (a_sh_ph _ I) as Q. rewrite D in Q. simpl in Q. rewrite Q. reflexivity. }
+  split; [apply (a_nw _ I)|]. split; [apply busy_exited; exact F|].
+  assert (G : forall l x, InvA x -> sh x = ShDone ->
+            InvA (run o x l) /\ sh (run o x l) = ShDone /\ ran (run o x l) = ran x).
+  { induction l as [|ch l IH]; intros x Ix Dx; simpl; [auto|].
+    unfold step'. destruct (step o x ch) as [x'|] eqn:E; [|apply IH; assumption].
+    destruct (done_step _ _ _ _ Ix Dx E) as [D' R'].
+    destruct (IH x' (step_InvA _ _ _ _ Ix E) D') as [A1 [A2 A3]].
+    split; [exact A1|]. split; [exact A2|]. congruence. }
+  destruct (G cs' s I D) as [I' [D' R']].
+  split; [exact D'|]. split; [exact R'|].
+  apply busy_exited. apply (a_exited _ I'). rewrite D'. reflexivity.
+Qed.
+
+(* ------------------------------------------------------------------ Execute returns *)
+
+Definition live (x : sst) : Prop := x <> SNone /\ forall r, x <> SRet r.
+
+(* the only place where an Execute call can be blocked: parked on the send with no room *)
+Lemma sub_blocked_only_without_room o s t :
+  live (subs s t) -> step o s (Sub t) = None ->
+  subs s t = SParked /\ In t (skipn (cap s) (queue s)).
+Proof.
+  intros [L1 L2] H. cbn [step] in H. destruct (subs s t) eqn:E; try discriminate H;
+  try (exfalso; apply L1; reflexivity); try (exfalso; eapply L2; reflexivity).
+  - destruct (ph s); discriminate H.
+  - destruct (phase_eqb (ph s) PInit); discriminate H.
+  - destruct (phase_eqb (ph s) PRunning); discriminate H.
+  - destruct (closed s); discriminate H.
+  - destruct (mem t (bounced s)); [discriminate H|].
+    destruct (mem t (skipn (cap s) (queue s))) eqn:M; [|discriminate H].
+    split; [reflexivity | apply mem_In; exact M].
+Qed.
+
+Lemma sub_room o s t : live (subs s t) -> length (queue s) <= cap s -> step o s (Sub t) <> None.
+Proof.
+  intros L Hroom H. destruct (sub_blocked_only_without_room o s t L H) as [_ Hin].
+  rewrite skipn_all2 in Hin by exact Hroom. contradiction.
+Qed.
+
+(* own steps left until Execute returns, on a running executor *)
+Definition rank (x : sst) : nat :=
+  match x with
+  | SCas => 8 | SGet => 7 | SSpawn => 6 | SSetRun => 5 | SCheck => 4 | SPark => 3 | SParked => 2
+  | SRet _ => 0 | SNone => 0
+  end.
+
+Lemma sub_progress o s t s' : ph s = PRunning -> step o s (Sub t) = Some s' ->
+  rank (subs s' t) < rank (subs s t).
+Proof.
+  intros R H. cbn [step] in H. destruct (subs s t) eqn:E; try discriminate H.
+  - rewrite R in H. inversion H; subst. simpl. rewrite upd_same. simpl. lia.
+  - rewrite R in H. simpl in H. inversion H; subst. simpl. rewrite upd_same. simpl. lia.
+  - inversion H; subst. simpl. rewrite upd_same. simpl. lia.
+  - inversion H; subst. simpl. rewrite upd_same. simpl. lia.
+  - rewrite R in H. simpl in H. inversion H; subst. simpl. rewrite upd_same. simpl. lia.
+  - destruct (closed s); inversion H; subst; simpl; rewrite upd_same; simpl; lia.
+  - destruct (mem t (bounced s)); [inversion H; subst; simpl; rewrite upd_same; simpl; lia|].
+    destruct (mem t (skipn (cap s) (queue s))); [discriminate H|].
+    inversion H; subst; simpl; rewrite upd_same; simpl; lia.
+Qed.
+
+(* results: no call ends with an error or a panic unless Shutdown has begun *)
+Definition bad_ret (x : sst) : bool := match x with SRet RErr | SRet RPanic => true | _ => false end.
+
+Lemma step_no_bad o s c s' : InvA s ->
+  (sh s = ShIdle -> forall k, bad_ret (subs s k) = false) -> step o s c = Some s' ->
+  sh s' = ShIdle -> forall k, bad_ret (subs s' k) = false.
+Proof.
+  intros I P H.
+  step_cases H; pose proof (a_sh_ph _ I) as Q; pose proof (a_closed_sh _ I) as C; simpl; intros Hs k; try (apply P; assumption); try discriminate Hs;
+  try (upd_split k t; [try reflexivity | apply P; assumption]).
+  - upd_split k (next s); [reflexivity | apply P; assumption].
+  - rewrite Hs, Eph in Q. simpl in Q. destruct Q as [Q|[Q|Q]]; discriminate Q.
+  - rewrite Hs, Eph in Q. simpl in Q. destruct Q as [Q|[Q|Q]]; discriminate Q.
+  - exfalso. pose proof (a_past _ I t) as Pa. rewrite Esub in Pa. specialize (Pa eq_refl).
+    rewrite Hs in Q. simpl in Q. destruct Q as [Q|[Q|Q]]; rewrite Q in Pa; try discriminate Pa. congruence.
+  - rewrite Hs in C. simpl in C. congruence.
+  - exfalso. rewrite Hs in C. simpl in C. rewrite (a_bounced _ I C) in Emb. discriminate Emb.
+  - apply P; reflexivity.
+  - congruence.
+Qed.
+
+Theorem no_bad_before_shutdown o n c cs t :
+  let s := run o (init n c) cs in sh s = ShIdle -> bad_ret (subs s t) = false.
+Proof.
+  intros s Hs.
+  assert (G : InvA s /\ (sh s = ShIdle -> forall k, bad_ret (subs s k) = false)).
+  { apply (run_inv o (fun x => InvA x /\ (sh x = ShIdle -> forall k, bad_ret (subs x k) = false))).
+    - intros x ch x' [I P] H. split; [eapply step_InvA; eauto | eapply step_no_bad; eauto].
+    - split; [apply InvA_init | intros; reflexivity]. }
+  destruct G as [_ G]. apply G. exact Hs.
+Qed.
+
+(* a solo run on a running executor with room: Call + 4 own steps, returns nil, task queued last *)
+Lemma run_cons_some o s c s' r : step o s c = Some s' -> run o s (c :: r) = run o s' r.
+Proof. intros E. simpl. unfold step'. rewrite E. reflexivity. Qed.
+
+Lemma solo_execute o s : InvA s -> ph s = PRunning -> length (queue s) < cap s ->
+  let s' := run o s [Call; Sub (next s); Sub (next s); Sub (next s); Sub (next s)] in
+  subs s' (next s) = SRet ROk /\ queue s' = queue s ++ [next s] /\ ran s' = ran s.
+Proof.
+  intros I R Hroom.
+  assert (C : closed s = false).
+  { rewrite (a_closed_sh _ I), (sh_ph_running _ I R). reflexivity. }
+  pose proof (a_bounced _ I C) as Bo.
+  set (t := next s).
+  set (s1 := mk (ph s) (nw s) (cap s) (queue s) (closed s) (dn s) (ws s) (upd (subs s) t SGet) (sh s)
+               (S t) (entered s) (early s) (ran s) (bounced s) (errs s) (recovered s)).
+  assert (E1 : step o s Call = Some s1) by reflexivity.
+  assert (E2 : step o s1 (Sub t) = Some (set_sub s1 t SCheck)).
+  { cbn [step]. unfold s1 at 1. cbn [subs]. rewrite upd_same. unfold s1 at 1. cbn [ph]. rewrite R. reflexivity. }
+  set (s2 := set_sub s1 t SCheck) in *.
+  assert (E3 : step o s2 (Sub t) = Some (set_sub s2 t SPark)).
+  { cbn [step]. unfold s2 at 1. cbn [subs set_sub]. rewrite upd_same. unfold s2 at 1, s1 at 1. cbn [ph set_sub]. rewrite R. reflexivity. }
+  set (s3 := set_sub s2 t SPark) in *.
+  assert (E4 : step o s3 (Sub t) = Some (park s3 t)).
+  { cbn [step]. unfold s3 at 1. cbn [subs set_sub]. rewrite upd_same.
+    unfold s3 at 1, s2 at 1, s1 at 1. cbn [closed set_sub]. rewrite C. reflexivity. }
+  set (s4 := park s3 t) in *.
+  assert (Q4 : queue s4 = queue s ++ [t]) by reflexivity.
+  assert (E5 : step o s4 (Sub t) = Some (set_sub s4 t (SRet ROk))).
+  { cbn [step]. unfold s4 at 1. cbn [subs park]. rewrite upd_same.
+    assert (B4 : bounced s4 = []) by exact Bo. rewrite B4. simpl mem.
+    rewrite skipn_all2; [reflexivity | rewrite app_length; simpl; lia]. }
+  cbv zeta.
+  rewrite (run_cons_some _ _ _ _ _ E1), (run_cons_some _ _ _ _ _ E2), (run_cons_some _ _ _ _ _ E3),
+          (run_cons_some _ _ _ _ _ E4), (run_cons_some _ _ _ _ _ E5).
+  simpl run. split; [cbn [subs set_sub]; apply upd_same|]. split; reflexivity.
+Qed.
+
+(* ------------------------------------------------------------------ workers: spawned once, never die *)
+
+Lemma step_ws_len o s c s' : (ws s = [] \/ length (ws s) = nw s) -> step o s c = Some s' ->
+  ws s' = [] \/ length (ws s') = nw s'.
+Proof.
+  intros P H. step_cases H; simpl; try exact P; try (right; apply repeat_length);
+  (destruct P as [P|P]; [left; rewrite P; destruct j; reflexivity | right; rewrite setw_length; exact P]).
+Qed.
+
+Theorem workers_count o n c cs :
+  let s := run o (init n c) cs in
+  nw s = Nat.max 1 n /\ (ws s = [] \/ length (ws s) = nw s) /\
+  (started_ph (ph s) = true -> length (ws s) = nw s) /\
+  (dn s = false -> Forall alive_w (ws s)).
+Proof.
+  intros s. destruct (reach_Inv o n c cs) as [I _]. fold s in I.
+  split.
+  { unfold s. apply (run_inv o (fun x => nw x = Nat.max 1 n)); [|reflexivity].
+    intros x ch x' P H. step_cases H; simpl; exact P. }
+  split.
+  { unfold s. apply (run_inv o (fun x => ws x = [] \/ length (ws x) = nw x)); [|left; reflexivity].
+    intros x ch x' P H. eapply step_ws_len; eauto. }
+  split; [apply (a_ws_started _ I) | apply (a_alive _ I)].
+Qed.
+
+(* ------------------------------------------------------------------ the outcome of a task does not matter *)
+
+Definition core (s : st) :=
+  (ph s, nw s, cap s, queue s, closed s, dn s, ws s, subs s, sh s, next s, entered s, early s, ran s, bounced s).
+
+Lemma step_core o1 o2 s1 s2 c : core s1 = core s2 ->
+  match step o1 s1 c, step o2 s2 c with
+  | Some a, Some b => core a = core b
+  | None, None => True
+  | _, _ => False
+  end.
+Proof.
+  intros E. destruct s1, s2. unfold core in E. simpl in E. inversion E; subst. clear E.
+  destruct c; cbn [step Model.ph Model.nw Model.cap Model.queue Model.closed Model.dn Model.ws Model.subs
+                   Model.sh Model.next Model.entered Model.early Model.ran Model.bounced Model.errs Model.recovered];
+  repeat match goal with
+         | |- context [match subs0 ?t with _ => _ end] => destruct (subs0 t)
+         | |- context [match nth ?j ?l ?d with _ => _ end] => destruct (nth j l d)
+         | |- context [match ?x with _ => _ end] => is_var x; destruct x
+         | |- context [if phase_eqb ?a ?b then _ else _] => destruct (phase_eqb a b)
+         | |- context [if mem ?a ?b then _ else _] => destruct (mem a b)
+         | |- context [if forallb ?a ?b then _ else _] => destruct (forallb a b)
+         end; try exact I; try reflexivity; try discriminate.
+Qed.
+
+Theorem outcome_irrelevant o1 o2 cs : forall s1 s2, core s1 = core s2 ->
+  core (run o1 s1 cs) = core (run o2 s2 cs).
+Proof.
+  induction cs as [|c cs IH]; intros s1 s2 E; simpl; [exact E|].
+  apply IH. unfold step'. pose proof (step_core o1 o2 s1 s2 c E) as H.
+  destruct (step o1 s1 c), (step o2 s2 c); try contradiction; assumption.
+Qed.
+
+(* ------------------------------------------------------------------ one worker: submission order *)
+
+Lemma single_worker l j w : length l <= 1 -> nth j l WExited = w -> w <> WExited -> l = [w] /\ j = 0.
+Proof.
+  intros Hl E Hw. pose proof (nth_lt _ _ _ E Hw) as Hj.
+  destruct l as [|a [|b l]]; simpl in *; try lia.
+  destruct j; [|lia]. split; [congruence | reflexivity].
+Qed.
+
+Definition order_inv (s : st) : Prop :=
+  length (ws s) <= 1 /\ entered s = ran s ++ busy (ws s) ++ queue s ++ bounced s.
+
+Lemma step_order o s c s' : InvA s -> nw s = 1 -> order_inv s -> step o s c = Some s' -> order_inv s'.
+Proof.
+  intros I N [L P] H.
+  step_cases H; unfold order_inv; simpl; rewrite ?setw_length, ?repeat_length; try (split; [lia | exact P]);
+  try (destruct (single_worker _ _ _ L Ew ltac:(discriminate)) as [Ews ->]; rewrite Ews in *; simpl in *;
+       split; [lia|]; unfold busy in *; simpl in *; rewrite ?app_nil_r in *;
+       try rewrite Eq in P; simpl in P; rewrite <- ?app_assoc; simpl; try exact P;
+       try (rewrite Eq; simpl; exact P)).
+  - (* spawn *) split; [lia|]. rewrite busy_repeat. rewrite (a_spawn _ I t Esub) in P. exact P.
+  - (* park *) split; [exact L|]. rewrite (a_bounced _ I Ecl) in *. rewrite !app_nil_r in *.
+    rewrite P. rewrite !app_assoc. reflexivity.
+  - (* close *) split; [exact L|].
+    assert (C : closed s = false) by (rewrite (a_closed_sh _ I), Esh; reflexivity).
+    rewrite (a_bounced _ I C) in *. simpl. rewrite app_nil_r in P. rewrite P.
+    rewrite <- (firstn_skipn (cap s) (queue s)) at 1. reflexivity.
+Qed.
+
+Theorem single_worker_order o n c cs : n <= 1 ->
+  let s := run o (init n c) cs in exists rest, entered s = ran s ++ rest.
+Proof.
+  intros Hn s.
+  assert (G : InvA s /\ nw s = 1 /\ order_inv s).
+  { apply (run_inv o (fun x => InvA x /\ nw x = 1 /\ order_inv x)).
+    - intros x ch x' [I [N Or]] H. split; [eapply step_InvA; eauto|]. split.
+      + step_cases H; simpl; exact N.
+      + eapply step_order; eauto.
+    - split; [apply InvA_init|]. split; [cbn [init nw]; lia | split; simpl; [lia | reflexivity]]. }
+  destruct G as [_ [_ [_ P]]]. eexists. exact P.
+Qed.
